@@ -55,6 +55,8 @@ theorem msum_cind_pos (c : WfqCfg ℚ) (k : Nat) (l : List SPkt) (h : 0 < msum (
       exact ⟨p, List.mem_cons_of_mem _ hp, hk⟩
 
 structure WInv (c : WfqCfg ℚ) (s : WState) : Prop where
+  /-- `total_packets` counts the packets waiting or in transmission -/
+  tot : Tot s
   cc : ∀ k, ccOf s.sch k = msum (cind c k) (held' s)
   act : ∀ k, k ∈ s.sch.active ↔ 0 < ccOf s.sch k
   sorted : s.sch.active.Pairwise (· < ·)
@@ -67,7 +69,7 @@ structure WInv (c : WfqCfg ℚ) (s : WState) : Prop where
 def start (t0 : ℚ) : WState := Stamp.init WFQ.init0 t0
 
 theorem init_winv (c : WfqCfg ℚ) (t0 : ℚ) : WInv c (start t0) := by
-  refine ⟨?_, ?_, ?_, ?_, ?_, ?_, ?_⟩
+  refine ⟨init_tot _ _, ?_, ?_, ?_, ?_, ?_, ?_, ?_⟩
   · intro k; simp [start, Stamp.init, init0, ccOf, lookup, held', held, inHand, waiting, finL]
   · intro k; simp [start, Stamp.init, init0, ccOf, lookup]
   · simp [start, Stamp.init, init0]
@@ -113,6 +115,14 @@ theorem WInv.active_weighted {c : WfqCfg ℚ} {s : WState} (h : WInv c s) (k : N
   cases hk'
   simp [hw]
 
+/-- `total_packets ≠ 0`: something is waiting or in transmission, so some class is active -/
+theorem WInv.active_ne_of_total {c : WfqCfg ℚ} {s : WState} (h : WInv c s) (hne : qcTotal s.queueCount ≠ 0) :
+    s.sch.active ≠ [] := by
+  intro hc
+  have he := h.active_nil_iff.mp hc
+  simp only [held', List.append_eq_nil_iff] at he
+  exact hne (h.tot.zero_iff.mpr he.1)
+
 theorem getD_match (o : Option Int) : (match o with | some n => n | none => 0) = o.getD 0 := by
   cases o <;> rfl
 
@@ -133,10 +143,10 @@ theorem cind_of_cls (c : WfqCfg ℚ) (k k' : Nat) (p : SPkt) (hk : clsOf c p.flo
     simp [h, this]
 
 /-- states whose scheduler part and accounted packets agree have the same invariant -/
-theorem winv_of_same {c : WfqCfg ℚ} {s s' : WState} (h : WInv c s) (hsch : s'.sch = s.sch)
+theorem winv_of_same {c : WfqCfg ℚ} {s s' : WState} (h : WInv c s) (htot : Tot s') (hsch : s'.sch = s.sch)
     (hm : ∀ g, msum g (held' s') = msum g (held' s)) (hmem : ∀ p ∈ held' s', p ∈ held' s) :
     WInv c s' := by
-  refine ⟨?_, ?_, ?_, ?_, ?_, ?_, ?_⟩
+  refine ⟨htot, ?_, ?_, ?_, ?_, ?_, ?_, ?_⟩
   · intro k; rw [hsch, hm]; exact h.cc k
   · intro k; rw [hsch]; exact h.act k
   · rw [hsch]; exact h.sorted
@@ -150,36 +160,37 @@ theorem step_winv {c : WfqCfg ℚ} {s s' : WState} {a : StAct ℚ} {o : StOut} (
     (ht : Trans (sched c) s a s' o) : WInv c s' := by
   have key := step_held' hg ht
   have mem := fun p (hp : p ∈ held' s') => step_held'_mem hg ht hp
+  have htot := step_tot hg ht hw.tot
   cases ht with
   | initBlock h1 h2 =>
-    exact winv_of_same hw rfl (fun g => by simpa [entered, booked] using key g)
+    exact winv_of_same hw htot rfl (fun g => by simpa [entered, booked] using key g)
       (fun p hp => by simpa [entered] using mem p hp)
   | initServe id it rest h1 h2 =>
-    exact winv_of_same hw rfl (fun g => by simpa [entered, booked] using key g)
+    exact winv_of_same hw htot rfl (fun g => by simpa [entered, booked] using key g)
       (fun p hp => by simpa [entered] using mem p hp)
   | handoff id it rest h1 h2 =>
-    exact winv_of_same hw rfl (fun g => by simpa [entered, booked] using key g)
+    exact winv_of_same hw htot rfl (fun g => by simpa [entered, booked] using key g)
       (fun p hp => by simpa [entered] using mem p hp)
   | resume it h1 =>
-    exact winv_of_same hw rfl (fun g => by simpa [entered, booked] using key g)
+    exact winv_of_same hw htot rfl (fun g => by simpa [entered, booked] using key g)
       (fun p hp => by simpa [entered] using mem p hp)
   | sendInit p h1 h2 h3 =>
-    exact winv_of_same hw rfl (fun g => by simpa [entered, booked] using key g)
+    exact winv_of_same hw htot rfl (fun g => by simpa [entered, booked] using key g)
       (fun p hp => by simpa [entered] using mem p hp)
   | sendFire p due h1 h2 =>
-    exact winv_of_same hw rfl (fun g => by simpa [entered, booked] using key g)
+    exact winv_of_same hw htot rfl (fun g => by simpa [entered, booked] using key g)
       (fun p hp => by simpa [entered] using mem p hp)
   | tick t h1 =>
-    exact winv_of_same hw rfl (fun g => by simpa [entered, booked] using key g)
+    exact winv_of_same hw htot rfl (fun g => by simpa [entered, booked] using key g)
       (fun p hp => by simpa [entered] using mem p hp)
   | sample b =>
     exact hw
   | put p sch stamp h1 =>
-    obtain ⟨k, st1, f, w, hk, ha, hf, hwt, hz, rfl, rfl⟩ := put_spec c _ _ _ _ _ h1
+    obtain ⟨k, st1, f, w, hk, ha, hf, hwt, hz, rfl, rfl⟩ := put_spec c _ _ _ _ _ _ h1
     have hst1 : st1.classCount = s.sch.classCount ∧ st1.active = s.sch.active := by
-      rcases advance_spec c _ _ _ ha with ⟨_, rfl⟩ | ⟨_, _, _, rfl⟩ <;> exact ⟨rfl, rfl⟩
+      rcases advance_spec c _ _ _ _ ha with ⟨_, rfl⟩ | ⟨_, _, _, rfl⟩ <;> exact ⟨rfl, rfl⟩
     have hcc1 : ∀ k', ccOf st1 k' = ccOf s.sch k' := fun k' => by simp [ccOf, hst1.1]
-    refine ⟨?_, ?_, ?_, ?_, ?_, ?_, ?_⟩
+    refine ⟨htot, ?_, ?_, ?_, ?_, ?_, ?_, ?_⟩
     · intro k'
       have := key (cind c k')
       simp only [entered, booked, msum_cons, msum_nil, add_zero, sub_zero] at this
@@ -206,16 +217,16 @@ theorem step_winv {c : WfqCfg ℚ} {s s' : WState} {a : StAct ℚ} {o : StOut} (
       by_cases h : k' = k
       · simp [h]
       · simp only [h, if_false]
-        rcases advance_spec c _ _ _ ha with ⟨_, rfl⟩ | ⟨hne, _, _, rfl⟩
+        rcases advance_spec c _ _ _ _ ha with ⟨_, rfl⟩ | ⟨hne, _, _, rfl⟩
         · simp [resetVtime, lookup_zeroFinish, hw']
-        · exact hw.fkeys hne k' w' hw'
+        · exact hw.fkeys (hw.active_ne_of_total hne) k' w' hw'
     · intro k' F' hF
       change lookup (setKey st1.finish k _) k' = some F' at hF
       rw [lookup_setKey] at hF
       by_cases h : k' = k
       · subst h; simp [hwt]
       · simp only [h, if_false] at hF
-        rcases advance_spec c _ _ _ ha with ⟨_, rfl⟩ | ⟨_, _, _, rfl⟩
+        rcases advance_spec c _ _ _ _ ha with ⟨_, rfl⟩ | ⟨_, _, _, rfl⟩
         · simp only [resetVtime, lookup_zeroFinish] at hF
           by_cases hs : (lookup c.weights k').isSome
           · exact hs
@@ -225,15 +236,15 @@ theorem step_winv {c : WfqCfg ℚ} {s s' : WState} {a : StAct ℚ} {o : StOut} (
     · intro hnil
       exact absurd hnil (insertAsc_ne_nil k _)
   | doneBlock p sch h1 h2 h3 =>
-    exact step_winv_done hg hw h1 h2 (fun g => by simpa [entered, booked, finL, h1] using key g)
+    exact step_winv_done hg hw htot h1 h2 (fun g => by simpa [entered, booked, finL, h1] using key g)
       (fun q hq => by simpa [entered] using mem q hq)
   | doneServe p sch id it rest h1 h2 h3 =>
-    exact step_winv_done hg hw h1 h2 (fun g => by simpa [entered, booked, finL, h1] using key g)
+    exact step_winv_done hg hw htot h1 h2 (fun g => by simpa [entered, booked, finL, h1] using key g)
       (fun q hq => by simpa [entered] using mem q hq)
 where
   /-- the bookkeeping burst -/
   step_winv_done {c : WfqCfg ℚ} {s s' : WState} {p : SPkt} {sch : WfqSt ℚ} (_hg : GInv s) (hw : WInv c s)
-      (h1 : s.fin = some p) (h2 : (sched c).onDone s.sch s.now p = .ok sch)
+      (htot : Tot s') (h1 : s.fin = some p) (h2 : (sched c).onDone s.sch s.now p = .ok sch)
       (key : ∀ g, msum g (held' s') = msum g (held' s) - g p) (mem : ∀ q ∈ held' s', q ∈ held' s)
       (hsch : s'.sch = sch := by rfl) : WInv c s' := by
     obtain ⟨st1, k, st2, hu, hk, hl, rfl⟩ := done_spec c _ _ _ _ h2
@@ -279,7 +290,7 @@ where
       rcases hcase with ⟨_, _, rfl⟩ | ⟨_, rfl⟩
       · exact hw.sorted.sublist List.filter_sublist
       · exact hw.sorted
-    refine ⟨?_, ?_, ?_, ?_, ?_, ?_, ?_⟩
+    refine ⟨htot, ?_, ?_, ?_, ?_, ?_, ?_, ?_⟩
     · intro k'
       rw [hsch]
       simp only [ccOf, settle_classCount]
